@@ -37,6 +37,7 @@ from .. import c11_dyn as D
 
 PROP_FILES = [core.THEORIES / "C11" / "Props.v"]
 SEL_F5 = "centroid_anchor_missing_writes_through"
+SEL_F110 = "user_filter_rebinds_label_instances"
 CORPUS = core.CORPUS / "C11"
 GEN_DIR = core.THEORIES / "Gen"
 
@@ -367,12 +368,17 @@ def static_part(run: core.Run, tr):
         ok = rc == 0 and len(blocks) == len(accepted) + len(refuted) + 1 and not any(blocks)
         if ok:
             run.obligation(f"history_pure: after ANY sequence of calls of the {len(accepted)} accepted regenerated "
-                           "programs every object existing before it (labels, cache, cached samples) has the same "
-                           "value to any depth, and no later call alters a sample handed out earlier "
-                           "(all_accepted + history_value / earlier_results_stable)", True)
+                           "programs every object existing before it (labels incl. the instance list of every "
+                           "frame, cache, cached samples) has the same value to any depth, and no later call alters "
+                           "a sample handed out earlier (all_accepted + history_value / earlier_results_stable); "
+                           "attribute stores into label objects are translated as stores (a target that rebinds "
+                           "lf.instances is REJECTED, not in this list)", True)
             for n in accepted:
+                own = (" [the dataset's own self.cache / self.cache_lf are modelled as objects this call creates "
+                       "and fills: 'pre-existing' = the labels and every other attribute of self]"
+                       if any(t[0] == n and t[3] is not None for t in tr.TARGETS) else "")
                 run.obligation(f"accepted_{n} / pure_{n}: verified checker accepts the regenerated program "
-                               "(vm_compute) and fn_accepted_sound applies", True)
+                               f"(vm_compute) and fn_accepted_sound applies{own}", True)
             for n in refuted:
                 verdict[n]["model_refuted"] = True
                 run.obligation(f"refuted_{n}: the regenerated program has an execution that changes a "
@@ -488,7 +494,10 @@ def fn_cases(name, rng):
         uo = rng.random() < 0.7
         # stay inside process_lf's domain: the frame has a non-empty considered instance
         cons = D.considered(ls["frames"][idx], uo)
-        if all(D.is_empty(i) for i in cons):
+        if rng.random() < 0.1:                       # OUTSIDE the domain (round 4): process_lf must raise
+            for i in cons:
+                i["pts"] = [None] * len(i["pts"])
+        elif all(D.is_empty(i) for i in cons):
             cons[0]["pts"][0] = [2.0, 3.0]
         mx = max(len(f["insts"]) for f in ls["frames"])
         a = {"lf": {"t": "lf", "labels": ls, "index": idx}, "video_idx": 0, "max_instances": mx,
@@ -563,8 +572,12 @@ def run_fn_case(tr, case):
             pr = s.ranges()
             if any(D.overlaps(r, pr) for r in rr):
                 aliased.append(names.index(k))
+    frame_after = None
+    lfobj = args.get("lf") if "lf" in args else (args["x"][0] if isinstance(args.get("x"), tuple) else None)
+    if isinstance(lfobj, D.DFrame):
+        frame_after = [not i.predicted for i in lfobj.instances]
     return {"written": sorted(written), "aliased": sorted(aliased), "changes": changes, "raised": raised,
-            "result": res, "args": args}
+            "result": res, "args": args, "frame_after": frame_after}
 
 
 def f5_function_selector(case, changes) -> bool:
@@ -593,6 +606,33 @@ def f5_function_selector(case, changes) -> bool:
     return True
 
 
+def case_frame(case):
+    """(frame spec, user_instances_only) of a process_lf / chunk case, else None"""
+    a = case["args"]
+    lf = a.get("lf") or (a["x"]["items"][0] if "x" in a else None)
+    if not isinstance(lf, dict) or lf.get("t") != "lf":
+        return None
+    return lf["labels"]["frames"][lf["index"]], bool(a.get("user_instances_only"))
+
+
+def f110_function_selector(case, changes) -> bool:
+    """selector user_filter_rebinds_label_instances at function level: process_lf / a chunk function with
+    user_instances_only on a frame holding both user and predicted instances; the ONLY change of the
+    arguments is the instance list of that frame, which lost exactly its predicted instances."""
+    cf = case_frame(case)
+    if cf is None or not changes:
+        return False
+    fr, uo = cf
+    if not (uo and D.frame_mixed(fr)):
+        return False
+    for ch in changes:
+        if not ch["path"].endswith(".instances") or not isinstance(ch["before"], list):
+            return False
+        if ch["after"] != [d for d in ch["before"] if str(d).startswith("user")]:
+            return False
+    return True
+
+
 def chunk_plain(res):
     """chunk results without the PIL images (compared through their pixels)"""
     import numpy as np
@@ -615,21 +655,31 @@ def chunk_model_part(run, chunk_obs):
     if not chunk_obs:
         return
     fixed = code_is_fixed()
+    fixedL = labels_fixed()
 
     def kp(p):
         return "None" if p is None else f"(Some ({core.cq(D.frac(p[0]))}, {core.cq(D.frac(p[1]))}))"
 
+    def rawframe(f):
+        return core.clist(f["frame"]["insts"], lambda i: f"({core.cbool(not i['pred'])}, {core.clist(i['pts'], kp)})")
+
     def term(c):
         f = D.chunk_facts(c)
-        raw = core.clist(f["frame"]["insts"], lambda i: f"({core.cbool(not i['pred'])}, {core.clist(i['pts'], kp)})")
         return (f"({core.cbool(fixed)}, {core.copt(f['anchor'], core.cnat)}, {core.cbool(f['uo'])}, "
-                f"{core.cnat(f['maxi'])}, {core.cq(D.frac(f['eff']))}, {core.cq(D.frac(f['scale']))}, {raw})")
+                f"{core.cnat(f['maxi'])}, {core.cq(D.frac(f['eff']))}, {core.cq(D.frac(f['scale']))}, {rawframe(f)})")
+
+    def term_after(c):
+        f = D.chunk_facts(c)
+        return f"({core.cbool(fixedL)}, {core.cbool(f['uo'])}, {rawframe(f)})"
     pre = ("From SV Require Import C11.Values C11.Dataset C11.Chunks.\nFrom Coq Require Import List QArith.\n"
            "Import ListNotations.\nDefinition rkp := ropt (rpair rQ rQ).\n"
            "Definition rrows := rpair (rlist (rlist rkp)) rnat.\n")
-    model = core.coq_eval_sharded(pre, [term(c) for c, _ in chunk_obs], "run_chunk",
-                                  "rpair (rpair rrows rrows) (rpair (rpair rrows (rlist rkp)) (rlist (rpair rkp (rlist rkp))))",
-                                  shard=80)
+    model_dom = core.coq_eval_sharded(pre, [term(c) for c, _ in chunk_obs], "run_chunk_dom",
+                                      "rpair (rpair rbool rbool) (rpair (rpair rrows rrows) (rpair (rpair rrows (rlist rkp)) "
+                                      "(rlist (rpair rkp (rlist rkp)))))", shard=80)
+    model = [m[1] for m in model_dom]
+    after = core.coq_eval_sharded(pre, [term_after(c) for c, _ in chunk_obs], "run_frame_after", "rlist rbool",
+                                  shard=400)
 
     def kp_close(m, x, shift=None):
         if m is None:
@@ -645,11 +695,33 @@ def chunk_model_part(run, chunk_obs):
         return got["n"] == mn and len(got["rows"]) == len(mrows) and all(
             len(r) == len(g) and all(kp_close(m, x) for m, x in zip(r, g)) for r, g in zip(mrows, got["rows"]))
     bad = []
+    dom_bad, after_bad, n_out = [], [], 0
+    for (c, got), (dom_lf, dom_an), maft in zip(chunk_obs, [m[0] for m in model_dom], after):
+        n = c["fn"]
+        defined = dom_lf and (dom_an or n not in ("centroid_data_chunks", "centered_instance_data_chunks"))
+        n_out += not defined
+        if defined != ("raised" not in got) or defined != D.chunk_in_domain(c):
+            dom_bad.append({"fn": n, "model_domain": [dom_lf, dom_an], "spec_domain": D.chunk_in_domain(c),
+                            "impl": got.get("raised", "returned"), "frame": D.chunk_facts(c)["frame"],
+                            "anchor": D.chunk_facts(c)["anchor"]})
+        if got.get("frame_after") is not None and got["frame_after"] != maft:
+            after_bad.append({"fn": n, "uo": D.chunk_facts(c)["uo"], "frame": D.chunk_facts(c)["frame"],
+                              "impl_user_flags_after": got["frame_after"], "model": maft})
+    run.obligation("correspondence: lf_domain / chunk_anchor_domain (Coq, hypotheses of the process_lf / chunk theorems) == "
+                   "the calls on which process_lf / the chunk functions return (they raise exactly outside)", not dom_bad,
+                   json.dumps(dom_bad[:2])[:900])
+    run.obligation(f"correspondence: frame_after (Coq, fixedL={fixedL}) == the instance list the caller's labelled frame "
+                   "holds after process_lf / a chunk function was called on it", not after_bad,
+                   json.dumps(after_bad[:2])[:900])
     for (c, got), ((mbu, msi), ((mce, mcents), mcrops)) in zip(chunk_obs, model):
         why = None
         n = c["fn"]
+        if "raised" in got:
+            continue                                  # judged by the domain obligation above
         if "error" in got:
             why = got["error"]
+        elif n == "process_lf" and not rows_ok(mbu[0], mbu[1], got):
+            why = f"impl n={got['n']} rows {got['rows']} model {mbu}"
         elif n == "bottomup_data_chunks" and not rows_ok(mbu[0], mbu[1], got):
             why = f"impl n={got['n']} rows {got['rows']} model {mbu}"
         elif n == "single_instance_data_chunks" and not rows_ok(msi[0], msi[1], got):
@@ -677,15 +749,18 @@ def chunk_model_part(run, chunk_obs):
     run.obligation("correspondence: Chunks.run_chunk (Coq) == get_data_chunks (/repo): instances rows / NaN padding / "
                    "num_instances, centroids, crops relative to their centroid, on every generated call", not bad,
                    json.dumps(bad[:2])[:900])
-    run.coverage["chunk_model"] = {"calls": len(chunk_obs), "fixed": fixed,
-                                   "scale_ne_1": sum(1 for c, _ in chunk_obs if c["args"]["scale"] != 1.0),
+    run.coverage["chunk_model"] = {"calls": len(chunk_obs), "fixed": fixed, "fixedL": fixedL,
+                                   "outside_domain": n_out,
+                                   "mixed_frame_user_only": sum(1 for c, _ in chunk_obs if D.chunk_facts(c)["uo"]
+                                                                and D.frame_mixed(D.chunk_facts(c)["frame"])),
+                                   "scale_ne_1": sum(1 for c, _ in chunk_obs if c["args"].get("scale", 1.0) != 1.0),
                                    "all_anchors_no_padding": sum(1 for c, _ in chunk_obs if chunk_dense(c))}
 
 
 def chunk_dense(c) -> bool:
     """anchor configured and labelled in every instance of the frame, no padding row"""
     f = D.chunk_facts(c)
-    return f["anchor"] is not None and all(i["pts"][f["anchor"]] is not None for i in f["cons"]) and \
+    return f["anchor"] is not None and f["anchor"] < f["ls"]["n_nodes"] and all(i["pts"][f["anchor"]] is not None for i in f["cons"]) and \
         (f["maxi"] == 1 or len(f["cons"]) == f["maxi"])
 
 
@@ -722,7 +797,8 @@ def functional_part(run, tr, verdict, tier):
         v = verdict.get(n, {})
         if obs["raised"]:
             raised_n += 1
-            run.notes.append(f"{n} raised on a generated case: {obs['raised'][:120]}")
+            if not (n == "process_lf" or n in D.CHUNK_FNS) or D.chunk_in_domain(c):
+                run.notes.append(f"{n} raised on a generated case: {obs['raised'][:120]}")
         # (a) tie: observed facts must be included in the predicted ones
         if v.get("closed"):
             if not set(obs["written"]) <= set(v["written"]):
@@ -732,7 +808,8 @@ def functional_part(run, tr, verdict, tier):
         # (b) oracle: the arguments are untouched
         if obs["written"]:
             oracle_bad += 1
-            sel = SEL_F5 if f5_function_selector(c, obs["changes"]) else None
+            sel = SEL_F5 if f5_function_selector(c, obs["changes"]) else \
+                (SEL_F110 if f110_function_selector(c, obs["changes"]) else None)
             failing[n].append(sel)
             run.violation("failing-input", {"what": f"{n} altered its argument(s)", "case": c,
                                             "changes": obs["changes"][:4], "oracle_clause": "input tensors untouched"},
@@ -740,10 +817,17 @@ def functional_part(run, tr, verdict, tier):
         # (c) chunk functions: what the sample holds of the labelled frame (labels x factor, NaN pattern,
         #     padding, centroids, one crop per instance), and the same call again gives the same sample
         if n in D.CHUNK_FNS and obs["raised"]:
-            oracle_bad += 1
-            failing[n].append(None)
-            run.violation("failing-input", {"what": f"{n} raised on a labelled frame with a non-empty instance",
-                                            "case": c, "raised": obs["raised"][:300], "oracle_clause": "total"})
+            if D.chunk_in_domain(c):
+                oracle_bad += 1
+                failing[n].append(None)
+                run.violation("failing-input", {"what": f"{n} raised on a labelled frame with a non-empty instance",
+                                                "case": c, "raised": obs["raised"][:300], "oracle_clause": "total"})
+            chunk_obs.append((c, {"raised": obs["raised"][:200], "frame_after": obs["frame_after"]}))
+        elif n == "process_lf":
+            if obs["raised"]:
+                chunk_obs.append((c, {"raised": obs["raised"][:200], "frame_after": obs["frame_after"]}))
+            else:
+                chunk_obs.append((c, dict(D.chunk_summary(c, obs["result"]), frame_after=obs["frame_after"])))
         elif n in D.CHUNK_FNS:
             fails = D.check_chunk(c, obs["result"])
             again = run_fn_case(tr, c)
@@ -756,9 +840,9 @@ def functional_part(run, tr, verdict, tier):
                 run.violation("failing-input", {"what": f"{n}: chunk sample does not hold the labels as they are",
                                                 "case": c, "failures": fails[:4], "oracle_clause": fails[0]["clause"]})
             try:
-                chunk_obs.append((c, D.chunk_summary(c, obs["result"])))
+                chunk_obs.append((c, dict(D.chunk_summary(c, obs["result"]), frame_after=obs["frame_after"])))
             except Exception as e:
-                chunk_obs.append((c, {"error": f"{type(e).__name__}: {e}"}))
+                chunk_obs.append((c, {"error": f"{type(e).__name__}: {e}", "frame_after": obs["frame_after"]}))
     chunk_model_part(run, chunk_obs)
     run.obligation("tie (operation table): observed argument writes / result-argument storage sharing are "
                    "included in the analysis' predictions on every generated call", not tie_bad,
@@ -1013,21 +1097,55 @@ def run_dataset_case(case, real_sio=None, tmp_root=None):
                                     "cen_nan": bool(_t.isnan(smp["centroid"]).any())})
             else:
                 info["all"].append({"rows": D.to_json(smp["instances"][0]), "n": int(smp["num_instances"])})
-        # a second dataset object over freshly built labels, read in another order
+        # a second dataset object over THE SAME label objects (round 4), read in another order
+        uo = cfg["user_instances_only"]
+        mixed = [fi for fi, fr in enumerate(ls["frames"]) if uo and D.frame_mixed(fr)]
+        max_before = max(len(fr["insts"]) for fr in ls["frames"])
+        max_after = max(len(x) for x in D.rebound_frames(ls, uo))
+        info["labels_after"] = [[isinstance(i, D.DInst) and not i.predicted for i in lf.instances] for lf in labels] \
+            if real_sio is None else None
         if want_len and case.get("second", True):
-            labels2 = D.build_labels(ls, real_sio)
-            ds2 = make_dataset(cls_name, labels2, cfg, np_chunks, chunk / "b")
-            for i in sorted(first, reverse=True):
-                if not D.same_value(first[i][1], ds2[i]):
+            ds2 = make_dataset(cls_name, labels, cfg, np_chunks, chunk / "b")
+            # the known consequence of F110: max_instances is recomputed over the filtered labels, the
+            # frame-level samples get fewer padding rows
+            expect_diff = bool(mixed) and max_after != max_before and cls_name != "CenteredInstanceDataset"
+            info["second"] = {"lf_idx_list": list(ds2.lf_idx_list), "max_instances": int(ds2.max_instances),
+                              "instance_idx_list": [list(t) for t in getattr(ds2, "instance_idx_list", [])]
+                              if cls_name == "CenteredInstanceDataset" else None, "all": []}
+            for i in range(want_len - 1, -1, -1):
+                smp2 = ds2[i]
+                if i in first and not D.same_value(first[i][1], smp2):
                     fails.append({"clause": "sample is a function of (labels, index): a second dataset over the "
                                             "same labels, read in another order, returns the same sample",
-                                  "detail": f"index {i}", "f5": False, "index": i})
-        # labels unchanged after building and reading
+                                  "detail": f"index {i}: differs in {D.first_difference(first[i][1], smp2)}; "
+                                            f"max_instances {int(ds.max_instances)} -> {int(ds2.max_instances)}",
+                                  "f5": False, "f110": expect_diff, "index": i})
+                if cls_name == "CenteredInstanceDataset":
+                    info["second"]["all"].insert(0, {"rel": D.to_json(smp2["instance"][0] - smp2["centroid"][0]),
+                                                     "cen_nan": bool(_t.isnan(smp2["centroid"]).any())})
+                else:
+                    info["second"]["all"].insert(0, {"rows": D.to_json(smp2["instances"][0]),
+                                                     "n": int(smp2["num_instances"])})
+            if mixed:
+                # ... and, where the labels were altered, one over freshly built labels (the old clause)
+                ds3 = make_dataset(cls_name, D.build_labels(ls, real_sio), cfg, np_chunks, chunk / "c")
+                for i in sorted(first, reverse=True):
+                    if not D.same_value(first[i][1], ds3[i]):
+                        fails.append({"clause": "sample is a function of (labels, index): a dataset over equal, "
+                                                "freshly built labels returns the same sample",
+                                      "detail": f"index {i}", "f5": False, "index": i})
+        # labels unchanged after building and reading: keypoint arrays, images AND the instance list of every frame
         if snap is not None:
             ch = snap.changed()
             if ch:
-                fails.append({"clause": "labels (keypoint arrays, images) unchanged after building / reading",
-                              "detail": "; ".join(p for p, *_ in ch[:3]), "f5": False})
+                # known (F110): only instance lists changed, only of frames holding user AND predicted instances
+                # under user_instances_only, and each lost exactly its predicted instances
+                known = all(p.endswith(".instances") and isinstance(b, list) and
+                            a == [d for d in b if str(d).startswith("user")] and
+                            any(p == f".lf{fi}.instances" for fi in mixed) for p, b, a in ch)
+                fails.append({"clause": "labels (keypoint arrays, images, instance lists) unchanged after building / reading",
+                              "detail": "; ".join(f"{p}: {b} -> {a}" if isinstance(b, list) else p for p, b, a in ch[:3]),
+                              "f5": False, "f110": known})
         else:
             import numpy as np
             for fi, objs in enumerate(real_objs):
@@ -1035,6 +1153,12 @@ def run_dataset_case(case, real_sio=None, tmp_root=None):
                     if not np.array_equal(o.numpy(), real_before[fi][ii], equal_nan=True):
                         fails.append({"clause": "labels unchanged after building / reading",
                                       "detail": f"frame {fi} instance {ii}", "f5": False})
+                now = list(labels[fi].instances)
+                if [id(o) for o in now] != [id(o) for o in objs]:
+                    users = [o for o in objs if type(o).__name__ != "PredictedInstance"]
+                    fails.append({"clause": "labels (instance lists) unchanged after building / reading",
+                                  "detail": f"frame {fi}: {len(objs)} -> {len(now)} instances (real sleap-io objects)",
+                                  "f5": False, "f110": fi in mixed and [id(o) for o in now] == [id(o) for o in users]})
         info["reads"] = len(hist) if want_len else 0
     finally:
         shutil.rmtree(chunk, ignore_errors=True)
@@ -1049,6 +1173,20 @@ def code_is_fixed() -> bool:
     w = torch.tensor([[[np.nan, np.nan], [4.0, 6.0]]])
     generate_centroids(w, anchor_ind=0)
     return bool(torch.isnan(w[0, 0]).all())
+
+
+F110_WITNESS = {"n_nodes": 2, "H": 16, "W": 16, "C": 1, "edges": [[0, 1]], "img_seed": 1, "anchor": None, "n_videos": 1,
+                "frames": [{"insts": [{"pts": [[5.0, 5.0], [6.0, 6.0]], "pred": True},
+                                      {"pts": [[1.0, 2.0], [3.0, 4.0]], "pred": False}], "video": 0, "frame_idx": 0}]}
+
+
+def labels_fixed() -> bool:
+    """which behaviour does the user-instance filter have?  (replayed witness of F110: process_lf with
+    user_instances_only on a frame [predicted, user]: does the caller's frame still hold both?)"""
+    from sleap_nn.data.providers import process_lf
+    labels = D.build_labels(F110_WITNESS)
+    process_lf(labels[0], 0, 2, True)
+    return len(labels[0].instances) == 2
 
 
 def ds_model_part(run, idx_cases):
@@ -1077,10 +1215,13 @@ def ds_model_part(run, idx_cases):
         return f"({core.cbool(fixed)}, {core.copt(anchor, core.cnat)}, {core.cbool(uo)}, {core.cq(D.frac(s))}, {raw})"
     pre = ("From SV Require Import C11.Values C11.Dataset.\nFrom Coq Require Import List QArith.\nImport ListNotations.\n"
            "Definition rkp := ropt (rpair rQ rQ).\n")
-    model = core.coq_eval_sharded(
-        pre, [term(ls, uo, s, a) for ls, uo, s, a, _ in gl], "run_ds",
-        "rpair (rtriple (rlist rnat) (rlist (rpair rnat rnat)) rnat) "
-        "(rpair (rlist (rpair (rlist (rlist rkp)) rnat)) (rlist (rpair rkp (rlist rkp))))", shard=60) if gl else []
+    RDS = ("rpair (rtriple (rlist rnat) (rlist (rpair rnat rnat)) rnat) "
+           "(rpair (rlist (rpair (rlist (rlist rkp)) rnat)) (rlist (rpair rkp (rlist rkp))))")
+    model = core.coq_eval_sharded(pre, [term(ls, uo, s, a) for ls, uo, s, a, _ in gl], "run_ds", RDS, shard=60) if gl else []
+    # the caller's labels after the first dataset was built, and a SECOND dataset over those label objects
+    fixedL = labels_fixed()
+    model2 = core.coq_eval_sharded(pre, [f"({core.cbool(fixedL)}, {term(ls, uo, s, a)})" for ls, uo, s, a, _ in gl],
+                                   "run_ds2", f"rpair (rlist (rlist rbool)) ({RDS})", shard=60) if gl else []
 
     def kp_close(m, x, shift=None):
         """model keypoint (None / [qx, qy]) vs implementation [x, y] (None = NaN)"""
@@ -1094,6 +1235,20 @@ def ds_model_part(run, idx_cases):
         return bool(np.allclose(mv, x, atol=1e-3, rtol=1e-4))
     bad = []
     n_idx = 0
+    n_second = n_changed = 0
+    for (ls, uo, s, anchor, members), (mafter, m2) in zip(gl, model2):
+        for c, info in members:
+            if info.get("labels_after") is not None and info["labels_after"] != mafter:
+                bad.append({"cls": c["cls"], "uo": uo, "frames": ls["frames"], "why":
+                            f"labels after building: impl user flags {info['labels_after']} model (fixedL={fixedL}) {mafter}"})
+            n_changed += info.get("labels_after") is not None and \
+                info["labels_after"] != [[not i["pred"] for i in fr["insts"]] for fr in ls["frames"]]
+            if info.get("second") is not None:
+                n_second += 1
+                why = cmp_ds(c["cls"], info["second"], m2, kp_close)
+                if why:
+                    bad.append({"cls": c["cls"], "np_chunks": c["np_chunks"], "uo": uo, "scale": s, "anchor": anchor,
+                                "frames": ls["frames"], "why": ("SECOND dataset over the same labels: " + why)[:700]})
     for (ls, uo, s, anchor, members), ((mlf, mil, mmax), (mfs, mcs)) in zip(gl, model):
         for c, info in members:
             why = None
@@ -1126,11 +1281,38 @@ def ds_model_part(run, idx_cases):
             if why:
                 bad.append({"cls": c["cls"], "np_chunks": c["np_chunks"], "uo": uo, "scale": s, "anchor": anchor,
                             "frames": ls["frames"], "why": why[:700]})
-    run.obligation("correspondence: Dataset.run_ds (Coq) == the datasets: index lists, max_instances, and for every "
-                   "index the `instances` rows / NaN padding / num_instances (frame-level classes) or the cropped "
-                   "instance relative to its centroid (centered-instance)", not bad, json.dumps(bad[:2])[:900])
+    run.obligation("correspondence: Dataset.run_ds / run_ds2 (Coq) == the datasets: index lists, max_instances, and for "
+                   "every index the `instances` rows / NaN padding / num_instances (frame-level classes) or the cropped "
+                   "instance relative to its centroid (centered-instance); the instance lists the caller's labels hold "
+                   f"after construction (labels_after, fixedL={fixedL}); the same for a SECOND dataset built over those "
+                   "label objects", not bad, json.dumps(bad[:2])[:900])
     run.coverage["dataset_model"] = {"label_set_x_config_groups": len(gl), "indices_compared": n_idx,
-                                     "fixed": fixed}
+                                     "fixed": fixed, "fixedL": fixedL, "second_datasets_over_same_labels": n_second,
+                                     "histories_that_changed_the_labels": int(n_changed)}
+
+
+def cmp_ds(cls, info, m, kp_close):
+    """info {lf_idx_list, instance_idx_list, max_instances, all} of a real dataset vs a run_ds result"""
+    (mlf, mil, mmax), (mfs, mcs) = m
+    if info["lf_idx_list"] != mlf or info["max_instances"] != mmax:
+        return f"lf_idx_list / max_instances: impl {info['lf_idx_list']}, {info['max_instances']} model {mlf}, {mmax}"
+    if cls == "CenteredInstanceDataset":
+        if info["instance_idx_list"] != mil or len(info["all"]) != len(mcs):
+            return f"instance_idx_list: impl {info['instance_idx_list']} model {mil}"
+        for k, (got, (mc, mk)) in enumerate(zip(info["all"], mcs)):
+            if mc is None or got["cen_nan"]:
+                return f"index {k}: centroid missing (model {mc}, impl NaN={got['cen_nan']})"
+            sh = [float(core.frac(mc[0])), float(core.frac(mc[1]))]
+            if len(mk) != len(got["rel"]) or not all(kp_close(a, x, sh) for a, x in zip(mk, got["rel"])):
+                return f"index {k}: instance - centroid: impl {got['rel']} model {mk} - {mc}"
+        return None
+    if len(info["all"]) != len(mfs):
+        return f"length {len(info['all'])} vs model {len(mfs)}"
+    for k, (got, (rows, n)) in enumerate(zip(info["all"], mfs)):
+        if got["n"] != n or len(got["rows"]) != len(rows) or not all(
+                len(r) == len(g) and all(kp_close(a, x) for a, x in zip(r, g)) for r, g in zip(rows, got["rows"])):
+            return f"index {k}: impl n={got['n']} rows {got['rows']} model n={n} rows {rows}"
+    return None
 
 
 def gen_dataset_case(rng, cls_name, np_chunks, ls=None):
@@ -1144,7 +1326,14 @@ def report_dataset_failures(run, case, fails, failing_by_cls):
     if not fails:
         return
     f5 = [f for f in fails if f["f5"]]
-    other = [f for f in fails if not f["f5"]]
+    f110 = [f for f in fails if f.get("f110") and not f["f5"]]
+    other = [f for f in fails if not f["f5"] and not f.get("f110")]
+    if f110:
+        failing_by_cls[case["cls"]].append(SEL_F110)
+        run.violation("failing-input", {"what": "building a dataset with user_instances_only drops the predicted "
+                                                "instances from the caller's labelled frames (lf.instances = "
+                                                "lf.user_instances)", "case": case, "failures": f110[:4],
+                                        "oracle_clause": f110[0]["clause"]}, selector=SEL_F110)
     if f5:
         failing_by_cls[case["cls"]].append(SEL_F5)
         run.violation("failing-input", {"what": "dataset sample invents a keypoint for an unlabelled anchor node",
@@ -1260,11 +1449,26 @@ def dataset_part(run, tier):
 F5_SITE = ("instance_centroids.py", "generate_centroids")
 
 
-def attributable_to_f5(v) -> bool:
-    """every in-place write the certificate flags is the statement of finding F5
-    (inside generate_centroids, possibly inlined into the target)"""
+F110_SITES = {("providers.py", "process_lf"), ("custom_datasets.py", "_get_lf_idx_list"),
+              ("custom_datasets.py", "_get_instance_idx_list")}
+
+
+def finding_of_store(o: str):
+    """the finding whose STATEMENT an offending store (file:line:function[:attr=name]) is, else None"""
+    parts = o.split(":")
+    if parts[0] == F5_SITE[0] and parts[2] == F5_SITE[1] and len(parts) == 3:
+        return SEL_F5
+    if len(parts) == 4 and parts[3] == "attr=instances" and (parts[0], parts[2]) in F110_SITES:
+        return SEL_F110
+    return None
+
+
+def attributable_to_findings(v, found) -> bool:
+    """every in-place write the certificate flags is the statement of a finding (F5: inside
+    generate_centroids; F110: `lf.instances = lf.user_instances`; possibly inlined into the target) AND a
+    failing input of exactly that finding was reproduced on the real code for this target"""
     offs = v.get("offending") or []
-    return bool(offs) and all(o.split(":")[0] == F5_SITE[0] and o.split(":")[2] == F5_SITE[1] for o in offs)
+    return bool(offs) and all(finding_of_store(o) is not None and finding_of_store(o) in found for o in offs)
 
 
 def search_targets(name):
@@ -1304,7 +1508,7 @@ def check(run: core.Run) -> int:
         why = v.get("why") or (f"no_param_write = false (may write parameter(s) {v.get('written')})"
                                if v.get("closed") else "certificate not closed")
         known_only = all(s is not None and run.selector_known(s) is not None for s in found)
-        if found and (not known_only or attributable_to_f5(v)):
+        if found and (not known_only or attributable_to_findings(v, found)):
             # failing inputs were found on the real code and reported (KNOWN-FINDING or VIOLATION); a
             # rejection is put down to a KNOWN finding only if every offending write is that finding's statement
             run.obligation(f"{name}: analysis REJECTS ({why}; offending writes {v.get('offending')}); rejection "
@@ -1319,9 +1523,16 @@ def check(run: core.Run) -> int:
         "the AliasIR translation over-approximates the Python semantics of the translated bodies (trusted: "
         "translator + operation table; validated by the observed-within-predicted tie on every run)",
         "kornia / torchvision functional calls are fresh-result oracles of the operation table",
-        "label sets: every frame has at least one instance (user or predicted); missing keypoints are (NaN, NaN)",
-        "same_index_same_sample: the interpreter's read refines exec of the translated body and is insensitive to "
-        "objects unreachable from its arguments (explicit hypotheses of the theorem)",
+        "label sets: every frame has at least one instance (user or predicted); missing keypoints are (NaN, NaN): a "
+        "half-NaN keypoint (NaN, y) is not representable in the model (kp = option (Q*Q)) and never generated",
+        "exact Q in the model vs astype('float32') in the code: dyadic k/4 inputs, compared at atol 1e-3 (run_ds, "
+        "run_chunk) / 2e-5 (run_centroid); the centered tie compares instance - centroid only (the crop offset is oracle-only)",
+        "same_index_same_sample: contract 1 (the reader refines exec) is proved for the script-guided interpreter rd_of "
+        "on every program; contract 2 (locality of the reader) is proved for the example reader only and stays an "
+        "explicit hypothesis for the regenerated __getitem__ programs: that clause rests on history_pure + the "
+        "bit-identical re-read oracle",
+        "process_lf / chunk-function / generate_centroids theorems hold on lf_domain / chunk_anchor_domain (the code "
+        "raises outside; checked per run)",
         "sleap-io Instance.numpy() returns a copy (find_instance_crop_size; checked on real objects every run)",
     ]
     run.trusted += ["translator/c11_alias2coq.py (ast -> AliasIR, operation table); torch / numpy view semantics "
@@ -1331,8 +1542,10 @@ def check(run: core.Run) -> int:
     return run.finish(explanation=(
         "proof: soundness of the alias-certificate checker over the heap semantics (C11/Props.v), instantiated per "
         "run on the AliasIR programs regenerated from the source (accepted_<f>/pure_<f>, or refuted_<f> for a rejected "
-        "target); histories over the heap (history_pure per run: any sequence of accepted calls leaves cache, cached "
-        "samples and labels unchanged, earlier samples are never altered; same_index_same_sample); dataset selection "
+        "target); histories over the heap (history_pure per run: any sequence of calls of the ACCEPTED programs leaves cache, cached "
+        "samples and labels unchanged, earlier samples are never altered; same_index_same_sample; the targets that "
+        "rebind lf.instances are rejected and refuted: finding F110, labels_unchanged_refuted / _partial over "
+        "Dataset.rebind, second_dataset_*); dataset selection "
         "model (user filter, index lists, process_lf rows/padding, centered source instance) with lengths; value-level theorems for generate_centroids / missing stays "
         "missing / dataset length with the F5 refuted-partial-fixed triple.  tie: translator + operation table "
         "validated by observed-within-predicted argument writes and storage sharing; model/code correspondence of "
